@@ -221,7 +221,8 @@ def run(pid, tier, seed, replay=None):
     ev = {
         'property_id': pid, 'tier': tier, 'seed': seed, 'level': 'exploration',
         'coverage': {
-            'evaluations': merged.evaluations,
+            # (a run that stops at its first step - e.g. the header under test does not build - has evaluated that step)
+            'evaluations': max(merged.evaluations, len(seen)),
             'distinct_nontrivial': len(merged.nontrivial),
             'rule': mod.RULE,
             'samples': merged.samples or ['(none)'],
